@@ -50,6 +50,39 @@ def Hook.Tame (g : Hook) : Prop := ∀ old new, (g old new).1 = old ∨ (g old n
 theorem keepNew_tame : keepNew.Tame := fun _ _ => Or.inr rfl
 theorem restoreOld_tame : restoreOld.Tame := fun _ _ => Or.inl rfl
 
+/-! ### The callback of `DispenseInstantly`
+
+`updateStock(quantity, src, dst)` converts the dispensed amount into the unit `src.Used` is kept in, then into the
+unit of `src.Remaining` (each only if present), with `unitpb.Convert32`: equal units convert, otherwise both units
+must be in the table `siUnits` and of one category.  Units are `traits.Consumable.Unit` enum numbers:
+0 unspecified, 1 no unit, 2 metre (length), 3 litre, 4 cubic metre, 5 cup (volume), 6 kilogram (weight). -/
+
+/-- `siUnits[u].category`: 0 length, 1 volume, 2 weight; `none` = not in the table. -/
+def unitCat (u : Nat) : Option Nat :=
+  if u = 2 then some 0 else if u = 3 ∨ u = 4 ∨ u = 5 then some 1 else if u = 6 then some 2 else none
+
+/-- `unitpb.Convert(v, from, to)` returns no error. -/
+def convertOk (frm to : Nat) : Bool :=
+  frm == to || (match unitCat frm, unitCat to with
+    | some a, some b => a == b
+    | _, _ => false)
+
+/-- `updateStock` returns an error - at once (Used does not convert) or half-way (Used did, Remaining does not). -/
+def dispenseFails (used remaining : Option Nat) (q : Nat) : Bool :=
+  (match used with | some u => !convertOk q u | none => false) ||
+  (match remaining with | some u => !convertOk q u | none => false)
+
+/-- The callback `DispenseInstantly` hands to `UpdateStock`, for a stock whose Used / Remaining are kept in the given
+units (`none`: not kept) and a quantity in unit `q`. -/
+def dispenseHook (used remaining : Option Nat) (q : Nat) : Hook :=
+  if dispenseFails used remaining q then restoreOld else keepNew
+
+theorem dispenseHook_tame (used remaining : Option Nat) (q : Nat) : (dispenseHook used remaining q).Tame := by
+  unfold dispenseHook
+  split
+  · exact restoreOld_tame
+  · exact keepNew_tame
+
 inductive HOp where
   /-- an operation of `Records.lean` -/
   | plain (op : RecOp)
